@@ -26,6 +26,16 @@ pub mod vio {
             ensures r.spec_kind() == kind
         { unimplemented!() }
     }
+    impl From<ErrorKind> for Error {
+        #[verifier::external_body]
+        fn from(kind: ErrorKind) -> (r: Error)
+            ensures r.spec_kind() == kind
+        { unimplemented!() }
+    }
+    impl vstd::std_specs::convert::FromSpecImpl<ErrorKind> for Error {
+        open spec fn obeys_from_spec() -> bool { false }
+        uninterp spec fn from_spec(k: ErrorKind) -> Error;
+    }
 
     pub trait VRead {
         /// bytes the source has not delivered yet (finite)
